@@ -116,6 +116,19 @@ CHECKS = {
         note='Bounded rows/depth; trees built through the bs4 API; what an HTML iframe element sees of its own content is accepted in both '
              'readings (drift only); unquoted identifier needles only in the random part.',
         technique='TLA+ text semantics, TLC enumeration replayed into the code; TLC trace validation of recorded selects'),
+    'C16': dict(
+        category='model_checking',
+        text='Imports.tla models CPython import statements (sys.modules absent/running/done, import stack, names bound so far, '
+             'from-import fallback to submodules, exception unwinding through try handlers); the 21 module bodies of soupsieve and the '
+             'installed bs4 are extracted with ast at check time (imports, bindings, import-time attribute uses incl. functions '
+             'reachable from module-level calls). TLC checks T-ImportSafe for every entry script (8 import forms, all ordered sequences of '
+             'length <= 2-3) and prints each script\'s predicted outcome and module begin/end order; every script is run in a fresh '
+             'interpreter (clean: exit status, exception, output, warnings, BeautifulSoup.select == soupsieve.select == same for every '
+             'order) and once with a sys.meta_path logger whose recorded order is compared with the model\'s.',
+        design_ref='§6 C16',
+        note='Verdict comes from the interpreter run; model/interpreter disagreements are recorded as drift (static extraction is an '
+             'over-approximation). CPython 3.12, bs4 4.15 as installed; reload/zipimport/frozen are out.',
+        technique='TLA+ model of the import system over module bodies extracted from source; TLC-enumerated import scripts run in fresh interpreters; recorded module execution order compared with the model'),
 }
 
 PENDING = {}
